@@ -2,6 +2,8 @@
 #include "qv.h"
 typedef unsigned char uchar;
 size_t gh_k;   /* ghost index: one arbitrary input byte stands for all of them */
+size_t gh_len; /* length of the string handed to an in-place decoder (terminator index) */
+char gh_c0, gh_c1;  /* original characters of the ghost pair, read before the decoder runs */
 #include "src/utilities/qencode.c"
 
 static char spec_hexdigit(unsigned v) { return (char)(v < 10 ? '0' + v : 'a' + (v - 10)); }
@@ -33,5 +35,83 @@ void h_hex_encode(void) {
         free(out);
     }
     free(bin);
+    QV_END();
+}
+
+static uchar spec_hexval(uchar c) {
+    if (c >= '0' && c <= '9') return c - '0';
+    if (c >= 'a' && c <= 'f') return c - 'a' + 10;
+    if (c >= 'A' && c <= 'F') return c - 'A' + 10;
+    return 0;
+}
+
+/* qhex_decode on ANY NUL-terminated string of any length (exactly-sized buffer, arbitrary bytes):
+ *   safety/termination (C17): no access outside the buffer, result length <= input length / 2,
+ *   semantics (C16): the result is the sequence of decoded pairs up to the first pair that
+ *   contains a NUL: for the ghost pair k < ret both characters were non-NUL and byte k is
+ *   16*val(c0)+val(c1) (both digit cases accepted); the pair at index ret contains a NUL. */
+void h_hex_decode(void) {
+    QV_IN(size_t, len);
+    QV_ASSUME(len <= QV_CAP(1000000));
+    char *str = malloc(len + 1);
+    QV_ASSUME(str != NULL);
+    QV_IN_BYTES(str, len);
+    str[len] = '\0';
+    QV_IN(size_t, k);
+    QV_ASSUME(k <= len && 2 * k <= len);
+    gh_k = k; gh_len = len;
+    gh_c0 = str[2 * k];
+    gh_c1 = (2 * k + 1 <= len) ? str[2 * k + 1] : 0;
+    size_t ret = qhex_decode(str);
+    QV_ASSERT(2 * ret <= len, "C17: hex decoder never produces more bytes than half the input length");
+    QV_ASSERT(str[ret] == '\0', "C17: decoded data is NUL-terminated");
+    if (k < ret) {
+        QV_ASSERT(gh_c0 != 0 && gh_c1 != 0, "C16: every decoded pair lies before the terminator");
+        QV_ASSERT((uchar)str[k] == (uchar)((spec_hexval(gh_c0) << 4) + spec_hexval(gh_c1)), "C16: byte k is the value of hex pair k (both digit cases)");
+        QV_REACH("hex pair decoded");
+    }
+    if (k == ret) {
+        QV_ASSERT(gh_c0 == 0 || gh_c1 == 0, "C16: decoding stops exactly at the first pair containing the terminator");
+        QV_REACH("hex decode stop pair");
+    }
+    free(str);
+    QV_END();
+}
+
+/* round trip, any length: qhex_decode(qhex_encode(x)) == x with the exact length */
+void h_hex_roundtrip(void) {
+    QV_IN(size_t, n);
+    QV_ASSUME(n <= QV_CAP(1000000));
+    uchar *bin = malloc(n + 1);
+    QV_ASSUME(bin != NULL);
+    QV_IN_BYTES(bin, n);
+    QV_IN(size_t, k);
+    QV_ASSUME(k <= n);
+    gh_k = k;
+    uchar bk = k < n ? bin[k] : 0;
+    char *enc = qhex_encode(bin, n);
+    if (enc != NULL) {
+        gh_len = 2 * n;
+        gh_c0 = enc[2 * k];
+        gh_c1 = k < n ? enc[2 * k + 1] : 0;
+        size_t ret = qhex_decode(enc);
+        /* k is arbitrary and does not influence the computation: the run in which it equals
+         * min(ret, n) shows ret == n (prophecy instantiation of the ghost index) */
+        if (ret < n) { QV_ASSUME(k == ret); QV_ASSERT(0, "C16: hex round trip does not stop early"); }
+        if (ret > n) { QV_ASSUME(k == n); QV_ASSERT(0, "C16: hex round trip does not run past the encoded data"); }
+        QV_ASSERT(ret == n || k != (ret < n ? ret : n), "C16: hex round trip returns the exact length");
+        if (k < n && ret == n) QV_ASSERT((uchar)enc[k] == bk, "C16: hex round trip reproduces byte k");
+        free(enc);
+    }
+    free(bin);
+    QV_END();
+}
+
+/* table lemma over all 256 byte values: decode digits of encode digits */
+void h_hex_tables(void) {
+    QV_IN(uchar, b);
+    char hi = spec_hexdigit(b >> 4), lo = spec_hexdigit(b & 15);
+    QV_ASSERT((uchar)((spec_hexval(hi) << 4) + spec_hexval(lo)) == b, "C16: spec digits invert for every byte value");
+    QV_ASSERT(hi != 0 && lo != 0 && ((hi >= '0' && hi <= '9') || (hi >= 'a' && hi <= 'f')), "C16: hex digits are lower case and never NUL");
     QV_END();
 }
